@@ -202,8 +202,9 @@ Proof.
   - apply htrunc_sorted; exact Hs.
   - intros k z. rewrite szf_htrunc. bd; [|discriminate]. intros Hk. pose proof (B _ _ Hk) as Bk. pose proof (D _ _ _ _ Hk Hp' ltac:(lia)). lia.
   - intros k z. rewrite !szf_htrunc. bd; try discriminate.
-    + intros H. destruct (S _ _ H) as [H3|H3]; [pose proof (D _ _ _ _ H Hp' ltac:(lia)); lia | right; exact H3].
-    + intros H. left. pose proof (D _ _ _ _ H Hp' ltac:(lia)). lia.
+    + intros Hk. destruct (S _ _ Hk) as [H3|H3]; [pose proof (D _ _ _ _ Hk Hp' ltac:(lia)); lia | right; exact H3].
+    + intros Hk. left. pose proof (D _ _ _ _ Hk Hp' ltac:(lia)). pose proof (S _ _ Hk) as [H3|H3]; [lia|].
+      destruct (szf h (k + z)) as [z2|] eqn:E2; [|congruence]. pose proof (D _ _ _ _ E2 Hp'). pose proof (D _ _ _ _ Hp' E2). pose proof (B _ _ E2). lia.
   - intros k z k' z'. rewrite !szf_htrunc. bd; try discriminate. apply D.
   - split; [lia|]. intros Hlt. rewrite szf_htrunc. bd; [|lia]. apply F. lia.
 Qed.
@@ -224,14 +225,15 @@ Proof.
   { intros x z H. apply szf_inv in H. destruct H as (sx & H & _). apply lookup_In in H. eapply Hlb; exact H. }
   assert (k = lo).
   { destruct F as [_ F]. specialize (F ltac:(lia)). destruct (N.eq_dec k lo); [assumption|]. exfalso.
-    rewrite Et in F by lia. destruct (szf t lo) as [z|] eqn:E; [|congruence]. apply Ht in E. lia. }
+    assert (E0 : szf ((k, s) :: t) lo = szf t lo) by (unfold szf; rewrite hget_cons; destruct (N.eqb_spec lo k); [congruence|reflexivity]).
+    rewrite E0 in F. destruct (szf t lo) as [z|] eqn:E; [|congruence]. apply Ht in E. lia. }
   split; [assumption|]. split; [lia|]. split; [tauto|]. constructor.
   - exact Hs.
-  - intros x z H. pose proof (Ht _ _ H) as Hx. rewrite <- Et in H by exact Hx. pose proof (B _ _ H). pose proof (D _ _ _ _ Hk H Hx). lia.
-  - intros x z H. pose proof (Ht _ _ H) as Hx. rewrite <- Et in H by exact Hx. destruct (S _ _ H) as [H1|H1]; [left; exact H1|right].
-    rewrite Et in H1; [exact H1|]. pose proof (B _ _ H). lia.
-  - intros x z x' z' H H' Hlt. pose proof (Ht _ _ H) as Hx. pose proof (Ht _ _ H') as Hx'.
-    rewrite <- Et in H by exact Hx. rewrite <- Et in H' by exact Hx'. eapply D; eauto.
+  - intros x z Hz. pose proof (Ht _ _ Hz) as Hx. rewrite <- Et in Hz by exact Hx. pose proof (B _ _ Hz). pose proof (D _ _ _ _ Hk Hz Hx). lia.
+  - intros x z Hz. pose proof (Ht _ _ Hz) as Hx. rewrite <- Et in Hz by exact Hx. destruct (S _ _ Hz) as [H1|H1]; [left; exact H1|right].
+    rewrite Et in H1; [exact H1|]. pose proof (B _ _ Hz). lia.
+  - intros x z x' z' Hz Hz' Hlt. pose proof (Ht _ _ Hz) as Hx. pose proof (Ht _ _ Hz') as Hx'.
+    rewrite <- Et in Hz by exact Hx. rewrite <- Et in Hz' by exact Hx'. eapply D; eauto.
   - split; [lia|]. intros Hlt. destruct (S _ _ Hk) as [H1|H1]; [lia|]. rewrite Et in H1 by lia. exact H1.
 Qed.
 
